@@ -381,6 +381,7 @@ func (w *Workload) NumOps() int {
 
 // Env is the shared object under test for one run.
 type Env struct {
+	codec2 *codec.Codec // two_codecs: a second, independent instance used by the same tasks
 	codec *codec.Codec
 	refl  *j5reflect.Reflector
 	refl2 *j5reflect.Reflector // second reflector over the same cache (shared_cache)
@@ -393,6 +394,12 @@ func newEnv(kind string) *Env {
 	switch kind {
 	case "proto_to_any":
 		e.codec = j5codec.NewCodec(j5codec.WithProtoToAny())
+	case "two_codecs":
+		// the package default and a private instance side by side: nothing may leak between them
+		codec.Global = codec.NewCodec()
+		j5codec.Global = codec.Global
+		e.codec = j5codec.Global
+		e.codec2 = j5codec.NewCodec()
 	case "resolver":
 		e.codec = j5codec.NewCodec(j5codec.WithResolver(plainResolver{}))
 	case "resolver_proto_to_any":
@@ -616,6 +623,9 @@ func execOp(e *Env, p *Prepared) (out Outcome) {
 		}
 	}()
 	fail := func(err error) Outcome { return Outcome{Class: "error", Text: err.Error()} }
+	if e.codec2 != nil && p.Spec.ValSeed&16 != 0 {
+		e = &Env{codec: e.codec2}
+	}
 	refl := e.refl
 	switch p.Spec.Kind {
 	case "encode":
@@ -766,7 +776,7 @@ func trimStack(b []byte) string {
 
 // ---------------------------------------------------------------- workload generation
 
-var codecKinds = []string{"new", "new", "new", "proto_to_any", "global", "reflector", "shared_cache", "resolver", "resolver_proto_to_any"}
+var codecKinds = []string{"new", "new", "new", "proto_to_any", "global", "reflector", "shared_cache", "resolver", "resolver_proto_to_any", "two_codecs"}
 var opKinds = []string{"encode", "encode", "encode", "decode", "decode", "query", "encode_any", "decode_any", "walk", "schema"}
 
 func genWorkload(seed uint64, deep bool) *Workload {
